@@ -29,7 +29,25 @@ CHILD_ENV = {"PYTHONHASHSEED": "0", "PYTHONDONTWRITEBYTECODE": "1", "PYTHONIOENC
 
 RH_SCORES = ["0.0", "5.0", "7.5", "9.8", "10.0", "10", "x", "", " 7.5", "7.5 ", "7.50", "1e1", "+7.5", "-0.0", ".5", "5.",
              "7_5", "1_0.0", "nan", "inf", "Infinity", "0x10", "7,5", "7.5\t", "\uff17.\uff15", "1E1", "00007.5", "7.5e0",
-             "1" * 400, "7.5/7.5"]
+             "1" * 400, "7.5/7.5",
+             # decimal digits of scripts that entered Unicode after 5.2 (the data base of CPython 2.7): whether
+             # float() reads them depends on the interpreter's unicodedata version (finding F10)
+             u"\U000112F7.5", u"\U0001E957.5", u"\U00011DA7.5", u"\U0001E147.5", u"\U0001FBF7.5", u"\U00011957.5",
+             u"\U00016AC7.5", u"\U0001E4F7.5", u"1\U0001E4F0.0"]
+
+# first code point of the digit block -> Unicode version that introduced it (only the blocks generated above)
+NEW_DIGIT_BLOCKS = {0x112F0: 7, 0x1E950: 9, 0x11DA0: 11, 0x1E140: 12, 0x1FBF0: 13, 0x11950: 13, 0x16AC0: 14, 0x1E4F0: 15}
+
+
+def new_digit_version(text):
+    """Highest Unicode version needed to read the digits of `text` (0: none of the listed blocks)."""
+    need = 0
+    for ch in text:
+        o = ord(ch)
+        for zero, ver in NEW_DIGIT_BLOCKS.items():
+            if zero <= o <= zero + 9:
+                need = max(need, ver)
+    return need
 
 
 def is_ascii(s):
@@ -119,6 +137,9 @@ def item_class(item):
             return "import"
         if any(op.get("how") == "rh" and "_" in op.get("s", "").split("/", 1)[0] for op in item["ops"]):
             return "rh-underscore-score"
+        need = max([0] + [new_digit_version(op.get("s", "").split("/", 1)[0]) for op in item["ops"] if op.get("how") == "rh"])
+        if need:
+            return "rh-unicode%d-digit-score" % need
         return "nonascii" if any(not is_ascii(op.get("s", "")) for op in item["ops"]) else "ascii"
     exotic = any(not is_plain(a[1]) for a in item.get("script", []))
     if item["k"] == "builder":
@@ -213,6 +234,8 @@ def compare(interp, item, got, ref):
             opcls = "nonascii" if not is_ascii(op.get("s", "")) else "ascii"
             if op.get("how") == "rh" and "_" in op.get("s", "").split("/", 1)[0]:
                 opcls = "rh-underscore-score"
+            elif op.get("how") == "rh" and new_digit_version(op.get("s", "").split("/", 1)[0]):
+                opcls = "rh-unicode%d-digit-score" % new_digit_version(op.get("s", "").split("/", 1)[0])
             vio.append(violation(PROP, interp, "api:%s:%s:%s" % (what, field, opcls),
                                  "python %s: %s differs from the reference interpreter in %s: got %s, reference %s" %
                                  (interp, short_op(op), field, clip(g, field, r), clip(r, field, g))))
